@@ -408,7 +408,7 @@ Print Assumptions C03_code_in_sentence.
 
 Theorem C03_code_in_sentence_hypotheses :
   (forallb (fun c => code_spans (cfg_span c)) [cfg_html; cfg_html_nohtml; cfg_markdown; cfg_latex; cfg_mathjax; cfg_default] = true) /\
-  (code_ok ($"call ") ($"f(*a, **b)[0] _x_ ![i](u)") ($" now.") = true) /\
+  (code_ok ($"call ") ($"f(a, *b, **c)[0] _x_ ![i](u)") ($" now.") = true) /\
   (code_of ($" x ") = InlineCode (mkCode [96%Z] [32%Z] ($"x"))) /\ (code_of ($"  ") = InlineCode (mkCode [96%Z] [] ($"  "))) /\
   (code_ok [] ($"a`b") [] = false) /\ (code_ok [] [] [] = false) /\ (code_ok [] ($"a<b") [] = false).
 Proof. split; [exact code_span_configs|exact code_span_instance]. Qed.
@@ -417,9 +417,9 @@ Print Assumptions C03_code_in_sentence_hypotheses.
 (* ... and such a sentence is a LEAF of the fragment (FTick), at every nesting depth: tokens, HTML (<code> around the escaped content)
    and the Markdown round trip (delimiter, padding, content, padding, delimiter give the text back) compose with the block laws *)
 Theorem C03_fragment_code_instance :
-  let t := FQuote [FTick 99 $"all " $"f(*a, **b)[0] _x_" $" now."; FMore (MBullet 45) 1 [FTick 97 $" " $" x " []] false (FItem (MBullet 45) 1 [FPara 122 [] []])] in
+  let t := FQuote [FTick 99 $"all " $"f(a, *b, **c)[0] _x_" $" now."; FMore (MBullet 45) 1 [FTick 97 $" " $" x " []] false (FItem (MBullet 45) 1 [FPara 122 [] []])] in
   wf_b t = true /\
-  text_of (spell t) = [ $"> call `f(*a, **b)[0] _x_` now." ++ [10%Z]; $"> " ++ [10%Z]; $"> - a ` x `" ++ [10%Z]; $"> - z" ++ [10%Z] ] /\
+  text_of (spell t) = [ $"> call `f(a, *b, **c)[0] _x_` now." ++ [10%Z]; $"> " ++ [10%Z]; $"> - a ` x `" ++ [10%Z]; $"> - z" ++ [10%Z] ] /\
   html_f (mkHopts false false) false (FTick 97 $" " $" x>y " []) = $"<p>a <code>x&gt;y</code></p>" /\
   wf_b (FTick 97 [] $"x`y" []) = false /\ wf_b (FTick 97 [] $"x" $" ") = false.
 Proof. vm_compute. repeat split; reflexivity. Qed.
@@ -468,3 +468,24 @@ Theorem C03_image_in_sentence : forall types fn pre w dest post,
   Inline.tokenize_inner types fn (pre ++ [33%Z; 91%Z] ++ w ++ [93%Z; 40%Z] ++ dest ++ [41%Z] ++ post) = EmphSentence.raw_if pre ++ [image_of w dest] ++ EmphSentence.raw_if post.
 Proof. exact image_in_sentence. Qed.
 Print Assumptions C03_image_in_sentence.
+
+(* LINE BREAKS of every spelling with spaces (Proofs/HardBreaks.v): the text of a paragraph whose lines - free of trigger characters, not
+   empty, not ending in a space of their own - are each followed by k spaces (any k, another one for every line) and a newline gives the
+   lines as raw text and between two of them ONE LineBreak holding the k spaces: soft for k < 2, HARD from two spaces on.
+   LineBreak.pattern evaluated exactly (no match starts inside a line; the match at the first trailing space is greedy), finditer,
+   the candidates tile the text - for any number of lines *)
+From Mistletoe Require Import Proofs.HardBreaks.
+Theorem C03_breaks_in_paragraph_text : forall types fn ls,
+  prose_spans types = true -> ls <> [] -> forallb bline_okb ls = true ->
+  Inline.tokenize_inner types fn (brk_join ls) = brk_toks ls.
+Proof. exact breaks_in_paragraph_text. Qed.
+Print Assumptions C03_breaks_in_paragraph_text.
+
+Theorem C03_breaks_instance :
+  let ls := [($"first line", 0%nat); ($"soft after one space", 1%nat); ($"hard", 2%nat); ($"harder", 5%nat); ($"the end.", 0%nat)] in
+  forallb bline_okb ls = true /\
+  brk_toks ls = [RawText ($"first line"); LineBreak [] true; RawText ($"soft after one space"); LineBreak [32%Z] true; RawText ($"hard"); LineBreak [32%Z; 32%Z] false;
+                 RawText ($"harder"); LineBreak [32%Z; 32%Z; 32%Z; 32%Z; 32%Z] false; RawText ($"the end.")] /\
+  bline_okb ($"ends in a space ", 2%nat) = false.
+Proof. exact breaks_instance. Qed.
+Print Assumptions C03_breaks_instance.
